@@ -187,13 +187,18 @@ func RunC07(sc *Scenario, dir string) *Result {
 		}
 	}
 	ref.Mode = "c07"
-	rn := NewNet(&ref, dir)
-	rres := rn.Run()
-	rn.StopAll()
-	digests := rn.Mon.ref()
-	if len(ref.Rules) == len(sc.Rules) {
-		rres.Extra = map[string]string{"writes": writeCounts(rn)}
-		return rres
+	key := ref.String()
+	digests, cached := refCache[key]
+	if !cached || len(ref.Rules) == len(sc.Rules) {
+		rn := NewNet(&ref, dir)
+		rres := rn.Run()
+		rn.StopAll()
+		digests = rn.Mon.ref()
+		refCache[key] = digests
+		if len(ref.Rules) == len(sc.Rules) {
+			rres.Extra = map[string]string{"writes": writeCounts(rn)}
+			return rres
+		}
 	}
 	c := *sc
 	c.Mode = "c07"
@@ -204,6 +209,8 @@ func RunC07(sc *Scenario, dir string) *Result {
 	res.Extra = map[string]string{"compared": fmt.Sprint(nt.Mon.compared), "uncompared": fmt.Sprint(nt.Mon.uncompared)}
 	return res
 }
+
+var refCache = map[string]*RefDigests{}
 
 func writeCounts(nt *Net) string {
 	// per node: number of durable writes until the node stored each height, "n:h=w,..."
